@@ -180,22 +180,31 @@ class Driver:
         self.proc = subprocess.Popen([str(exe)], stdin=subprocess.PIPE, stdout=subprocess.PIPE, text=True, bufsize=1 << 16)
 
     def batch(self, lines):
+        """Send all request lines (writer thread) and read exactly one answer per request."""
+        import threading
         lines = list(lines)
         if not lines:
             return []
+        for ln in lines:
+            assert "\n" not in ln
+
+        def writer():
+            try:
+                for i in range(0, len(lines), 256):
+                    self.proc.stdin.write("\n".join(lines[i:i + 256]) + "\n")
+                self.proc.stdin.flush()
+            except (BrokenPipeError, ValueError):
+                pass
+
+        th = threading.Thread(target=writer, daemon=True)
+        th.start()
         out = []
-        # chunk to avoid pipe dead-lock: write a chunk, read the same number of lines
-        for i in range(0, len(lines), 512):
-            chunk = lines[i:i + 512]
-            for ln in chunk:
-                assert "\n" not in ln
-            self.proc.stdin.write("\n".join(chunk) + "\n")
-            self.proc.stdin.flush()
-            for _ in chunk:
-                r = self.proc.stdout.readline()
-                if not r:
-                    raise Infra(f"model driver {self.exe.name} died (after {len(out)} answers)")
-                out.append(r.rstrip("\n"))
+        for _ in lines:
+            r = self.proc.stdout.readline()
+            if not r:
+                raise Infra(f"model driver {self.exe.name} died (after {len(out)} answers)")
+            out.append(r.rstrip("\n"))
+        th.join()
         return out
 
     def ask(self, line):
